@@ -565,22 +565,24 @@ func mustDeref(t types.Type) types.Type {
 
 func (i *interpreter) typeAssert(instr *ssa.TypeAssert, itf iface) value {
 	var v value
-	err := ""
+	ok := false
 	if itf.t == nil {
-		err = fmt.Sprintf("interface conversion: interface is nil, not %s", instr.AssertedType)
-	} else if idst, ok := instr.AssertedType.Underlying().(*types.Interface); ok {
+		// fails
+	} else if idst, isIface := instr.AssertedType.Underlying().(*types.Interface); isIface {
 		v = itf
-		if meth, _ := types.MissingMethod(itf.t, idst, true); meth != nil {
-			err = fmt.Sprintf("interface conversion: %v is not %v: missing method %s", itf.t, idst, meth.Name())
-		}
+		meth, _ := types.MissingMethod(itf.t, idst, true)
+		ok = meth == nil
 	} else if types.Identical(itf.t, instr.AssertedType) {
 		v = itf.v
-	} else {
-		err = fmt.Sprintf("interface conversion: interface is %s, not %s", itf.t, instr.AssertedType)
+		ok = true
 	}
-	if err != "" {
+	if !ok {
 		if !instr.CommaOk {
-			panic(i.runtimeError(err))
+			// the message is only built on the failing, non-comma-ok path (it is expensive to render)
+			if itf.t == nil {
+				panic(i.runtimeError(fmt.Sprintf("interface conversion: interface is nil, not %s", instr.AssertedType)))
+			}
+			panic(i.runtimeError(fmt.Sprintf("interface conversion: interface is %s, not %s", itf.t, instr.AssertedType)))
 		}
 		return tuple{zero(instr.AssertedType), false}
 	}
